@@ -196,6 +196,11 @@ func (vc *VC) atReturn(fr *Frame, n *Node, results []string, pos token.Pos) {
 			if hasTag(c.Tags, "T") && !vc.thorough {
 				continue // thorough tier only
 			}
+			if hasTag(c.Tags, "A") {
+				// assumed clause: used at call sites, NOT checked against the body (listed in the evidence)
+				vc.used["ASSUMED postcondition (not checked against the body) of "+relKey(fr.fn)+": "+truncate(c.Text, 160)] = true
+				continue
+			}
 			lbl := fmt.Sprint(j)
 			if c.Label != "" {
 				lbl = c.Label
